@@ -115,27 +115,19 @@ def run(ctx):
         work = os.path.join(d, "work")
         os.makedirs(work)
         wrec = os.path.join(work, "records.ndjson")
-        validated = 0
         found = {}
-        pending = rows
-        while pending:
-            vlib.write_ndjson(wrec, pending)
-            tres = vlib.run_tlc("FormsTrace", "FormsTrace.cfg", files=[wrec], workers=1, timeout=1800)
-            if tres.violated == "RecordOK":
-                k = int(re.search(r"l = (\d+)", tres.error_state or "").group(1))
-                r = pending[k - 1]
-                key, what = _explain(r, defs)
-                found.setdefault(key, []).append((what, r))
-                validated += k
-                pending = pending[k:]
-                if sum(len(v) for v in found.values()) > 60:
-                    break
-                continue
-            if not tres.ok:
-                raise vlib.HarnessError("FormsTrace did not accept the records: %s\n%s" % (tres.violated, tres.out[-2000:]))
-            validated += len(pending)
-            ev.tlc(tres, "FormsTrace.cfg")
-            break
+        vlib.write_ndjson(wrec, rows)
+        rej = os.path.join(d, "rejects.ndjson")
+        tres = vlib.run_tlc("FormsTrace", "FormsTrace.cfg", files=[wrec], workers=1, timeout=1800, payloads={"REJECT": rej})
+        if not tres.ok:
+            raise vlib.HarnessError("FormsTrace did not run through the records: %s\n%s" % (tres.violated, tres.out[-2000:]))
+        ev.tlc(tres, "FormsTrace.cfg")
+        validated = len(rows)
+        rejected = sorted(set(int(x) for x in vlib.read_ndjson(rej))) if tres.payload_counts.get("REJECT") else []
+        for k in rejected:
+            r = rows[k - 1]
+            key, what = _explain(r, defs)
+            found.setdefault(key, []).append((what, r))
         for key, lst in sorted(found.items()):
             what, r = lst[0]
             ctx.report(key, "%s [case %d step %d, %s, focus %s; %d records of this class]" % (what, r["case"], r["step"], r["opkind"] or r["kind"], r["focus"], len(lst)), r)
@@ -144,7 +136,7 @@ def run(ctx):
                     "through their value repertoires and lock flags) is one case = 1 create record + one record per fill step; plus one refill record "
                     "per form sample usable with core fonts; each record is one state of FormsTrace.tla judged by FillAllowed; non-trivial = distinct "
                     "(field, old value, new value, lock flag) combinations in which an unlocked field was given a different valid value",
-               exhaustive=True, cases=n, records=len(rows), sample_forms=summ["samples"], real_results=summ["results"],
+               exhaustive=True, cases=n, records=len(rows), records_rejected_by_tlc=len(rejected), sample_forms=summ["samples"], real_results=summ["results"],
                read_only_field_filled_with_other_value=locked_beh)
         ev.assume("valid values are those of FormsModel!Valid: options must exist, dates are in the field's format, text within MaxLen and within the "
                   "repertoire of the core font Helvetica (Latin-1); other scripts need user fonts that are not installed in the sandbox",
